@@ -676,6 +676,8 @@ def execute(ctx, plan):
     def do_action(do, how):
         now = loop.time()
         a = do["a"]
+        if world["settling"]:
+            return          # faults and requests stop in the settle phase (late anchored requests included)
         orc.check_obligations(now)
         ctx.state(*orc.abstract(), a)
         if held["n"] > 0 and how != "settle":
